@@ -60,15 +60,23 @@ Inductive case :=
 | CFrame (send0 : string) (data : string) (frames_i : list (Z * Z * string))
 (* handshake of the real MakeSecretConnection (victim) against a scripted peer.
    eph: 0 peer sends the ephemeral key it uses, 1 a low-order point, 2 a key it does not use
-   (other ephemeral), 3 its key truncated to [ephlen] bytes, 4 nothing (EOF), 5 not a BytesValue;
+   (other ephemeral), 3 its key truncated to [ephlen] bytes, 4 nothing (EOF), 5 not a BytesValue,
+   6 a low-order point, after which the peer carries on over the all-zero shared secret (send /
+   receive keys and challenge derived from zero, genuine AuthSig under them with its own key);
    auth: 0 genuine, 1 signature over the challenge of another session (replay), 2 claims a
    third party's key (own signature), 3 secp256k1 key, 4 signature with a flipped bit,
    5 sealed frame edited in transit, 6 nothing (EOF), 7 sealed garbage, 8 sealed under the
-   keys of another session (spliced), 9 claims the victim's own key (own signature).
+   keys of another session (spliced), 9 claims the victim's own key (own signature),
+   10-13 a well-formed AuthSig with a third party's key and a malformed signature (empty, the
+   peer's signature cut to 63 bytes, extended to 65 bytes, 64 zero bytes), 14-17 the same with
+   the peer's own key.
    impl: 0 accepted / 1 failed before trying to read the AuthSig message / 2 failed later; whether
    RemotePubKey() is the key the peer claimed *)
 | CHandshake (eph : N) (ephlen : Z) (auth : N) (res_i : N) (rem_is_claimed : bool)
-(* transport.upgrade: identities are small numbers.  key: identity whose key authenticated the
+(* transport.upgrade - called directly (harness c16_upgrade) or through the real
+   MultiplexTransport.Dial / Listen+Accept over loopback TCP (harness c16_dial): identities are
+   small numbers (1-3 nodes with keys; 10-19 near-miss ids of node 2's id that belong to no key:
+   shared prefixes, one character changed, upper case).  key: identity whose key authenticated the
    connection (None: secret connection failed); dialed: identity dialled; ni: identity in the
    NodeInfo the peer sent (None: exchange failed); valid: NodeInfo otherwise valid; own;
    compat.  impl: 0 ok, 1 auth failure without an id (secret connection or NodeInfo exchange
@@ -278,7 +286,7 @@ Definition model_handshake (eph : N) (ephlen : Z) (auth : N) : hs_result * bool 
   let eph_in : option bytes :=
     match eph with
     | 0 => Some (t_eph_pub p_eph)
-    | 1 => Some (repeat 0%N 32)
+    | 1 | 6 => Some (repeat 0%N 32)
     | 2 => Some (t_eph_pub 9)
     | 3 => Some (firstn (Z.to_nat ephlen) (t_eph_pub p_eph))
     | _ => None
@@ -303,12 +311,25 @@ Definition model_handshake (eph : N) (ephlen : Z) (auth : N) : hs_result * bool 
     | 3 => Some {| am_type := KSecp256k1; am_key := t_pub_of 12; am_sig := t_sign 12 p_chal |}
     | 4 => Some {| am_type := KEd25519; am_key := t_pub_of 12; am_sig := 99%N :: t_sign 12 p_chal |}
     | 9 => Some {| am_type := KEd25519; am_key := t_pub_of 11; am_sig := t_sign 12 p_chal |}
+    (* a genuine key (10-13 a third party's, 14-17 the peer's own) with a malformed signature:
+       empty, cut by one byte, one byte too long, all zero *)
+    | 10 | 11 | 12 | 13 | 14 | 15 | 16 | 17 =>
+      let pk := if (auth <? 14)%N then t_pub_of 13 else t_pub_of 12 in
+      let good := t_sign 12 p_chal in
+      let bad := match ((auth - 10) mod 4)%N with
+                 | 0 => []
+                 | 1 => removelast good
+                 | 2 => good ++ [0]
+                 | _ => repeat 0 (List.length good)
+                 end%N in
+      Some {| am_type := KEd25519; am_key := pk; am_sig := bad |}
     | _ => None       (* 5 edited frame, 6 EOF, 7 sealed garbage, 8 other session's keys *)
     end%N in
   let auth_in := if bytes_eqb p_send_key v_recv_key then msg else None in
   let r := make_secret_connection N N t_eph_pub t_dh t_transcript t_hkdf t_verify 11%N v_eph
              eph_in auth_in in
-  let claimed := match auth with 2 => t_pub_of 13 | 9 => t_pub_of 11 | _ => t_pub_of 12 end%N in
+  let claimed := match auth with 2 | 10 | 11 | 12 | 13 => t_pub_of 13 | 9 => t_pub_of 11
+                 | _ => t_pub_of 12 end%N in
   (r, match r with HsOk s => bytes_eqb (s_rem_pub s) claimed | _ => false end).
 
 (* the handshake clause on the script alone: a peer that is accepted must have sent the
@@ -470,11 +491,12 @@ Definition check (c : case) : verdict :=
   | CHandshake eph ephlen auth res_i rem_is_claimed =>
     let '(r, claimed_m) := model_handshake eph ephlen auth in
     first_of [
+      (* 6: a low-order point must be refused (whatever the peer does next: it knows the shared
+         secret, zero, without holding any ephemeral private key) *)
+      viol (negb ((res_i =? 0)%N && ((eph =? 1) || (eph =? 6))%N)) 6;
       (* 5: accepted => the peer proved possession of the claimed key over this exchange *)
       viol (negb (res_i =? 0)%N || hs_script_honest eph ephlen auth) 5;
       viol (negb (res_i =? 0)%N || rem_is_claimed) 5;
-      (* 6: a low-order point must be refused *)
-      viol (negb ((res_i =? 0)%N && (eph =? 1)%N)) 6;
       (* 8: an honest peer is accepted *)
       viol (negb (hs_script_honest eph ephlen auth) || (res_i =? 0)%N) 8;
       mism (hs_code r =? res_i)%N 17;
